@@ -8,8 +8,10 @@
 #
 # Modified by Nacime Bouziani, 2021-2022.
 
+import numbers
 from itertools import chain
 
+from ufl.algebra import Conj
 from ufl.argument import Coargument
 from ufl.core.ufl_type import ufl_type
 from ufl.form import BaseForm, FormSum, ZeroBaseForm
@@ -48,8 +50,14 @@ class Adjoint(BaseForm):
         if isinstance(form, Adjoint):
             return form._form
         elif isinstance(form, FormSum):
-            # Adjoint distributes over sums
-            return FormSum(*((Adjoint(c), w) for c, w in zip(form.components(), form.weights())))
+            # Adjoint distributes over sums; it is the conjugate transpose, so it is
+            # antilinear in the (possibly complex) weights
+            return FormSum(
+                *(
+                    (Adjoint(c), w.conjugate() if isinstance(w, numbers.Number) else Conj(w))
+                    for c, w in zip(form.components(), form.weights())
+                )
+            )
         elif isinstance(form, Coargument):
             # The adjoint of a coargument `c: V* -> V*` is the identity
             # matrix mapping from V to V (i.e. V x V* -> R).
